@@ -218,3 +218,185 @@ Theorem all_or_nothing_eager_refuted :
   exists prs st, Exists (pair_fails ev_demo) prs /\ slog (snd (put_eager prs (sinit st None))) <> [].
 Proof. exact eager_refuted. Qed.
 Print Assumptions all_or_nothing_eager_refuted.
+
+(* ============================================================================================
+   FROM THE QUERY TEXT.  Model/PipelineW.v [write_text] is the twin of
+   kvql.NewOptimizer(q).BuildPlan(store) + the caller's polls for PUT / REMOVE: lexer, statement
+   parser (parsePut / parseRemove: pure syntax, the mid-parse semantic tests of parser.go belong
+   to SELECT only), Validate (no `value` in PUT, neither key nor value in a PUT key / in REMOVE,
+   text-or-number results), function-call check, NO constant folding (Optimizer.init folds only
+   SELECT and DELETE), PutPlan / RemovePlan over the evaluator twin
+     ev_expr fo re e k v = toString (e.Execute (KVPair{k, v}, ctx))      (Model/Eval.v)
+   -- in the order of optimizer.go.  Corr/C12.v ([WText] cases) compares it with the
+   implementation on every run: accepted / rejected and error position, poll results, storage
+   call log, final state.  [parsed_text fo is_write_kind q = TOk (StPut p prs)]: the parser twin
+   reads q as a PUT of the pairs prs (unchecked trees).                                          *)
+From Coq Require Import ZArith.
+From KV Require Import Model.Ast Model.Value Model.Eval Model.StmtParser Model.Pipeline Model.PipelineW
+                       Proofs.PipelineWProofs.
+
+(* put (k1,v1),...,(kn,vn) as TEXT: for every float structure, regexp oracle, text, prior store and
+   polling pattern: if the parser twin reads the text as a PUT of the pairs prs, the pairs
+   evaluate to kvs (value i on the pair whose key is the evaluated key i), and the pipeline
+   accepts the text, THEN the final data is the prior data overwritten in order by the evaluated
+   pairs of the PARSED statement (as a store, as a map: the last binding wins), it stays sorted,
+   the first poll reports n and all later polls nil, and the whole storage traffic is the one
+   Put / BatchPut of exactly those pairs *)
+Theorem put_text_effect :
+  forall (fo : fops) (re_match : bytes -> bytes -> Value.res bool)
+         (q : string) (p : nat) (prs : list (expr * expr)) (kvs : list kvp)
+         (poll : poll) (polls : list Write.poll) (st : store) (out : list pres) (s' : sstate),
+  parsed_text fo is_write_kind q = TOk (StmtParser.StPut p prs) ->
+  pairs_eval (ev_expr fo re_match) prs kvs ->
+  write_text fo re_match q (poll :: polls) (sinit st None) = (TOk out, s') ->
+  sdata s' = fold_left (fun s kv => sput (fst kv) (snd kv) s) kvs st
+  /\ (forall k, sget k (sdata s') = last_binding k kvs (sget k st))
+  /\ (ssorted st -> ssorted (sdata s'))
+  /\ out = (Some (List.length kvs), None) :: idle (List.length polls)
+  /\ slog s' = put_call kvs.
+Proof. exact put_text_effect_lemma. Qed.
+Print Assumptions put_text_effect.
+
+(* remove k1,...,kn as TEXT: the prior data minus the evaluated keys of the PARSED statement *)
+Theorem remove_text_effect :
+  forall (fo : fops) (re_match : bytes -> bytes -> Value.res bool)
+         (q : string) (p : nat) (ks : list expr) (keys : list bytes)
+         (poll : poll) (polls : list Write.poll) (st : store) (out : list pres) (s' : sstate),
+  parsed_text fo is_write_kind q = TOk (StmtParser.StRemove p ks) ->
+  keys_eval (ev_expr fo re_match) ks keys ->
+  write_text fo re_match q (poll :: polls) (sinit st None) = (TOk out, s') ->
+  sdata s' = fold_left (fun s k => sdel k s) keys st
+  /\ (forall k, sget k (sdata s') = if existsb (String.eqb k) keys then None else sget k st)
+  /\ (ssorted st -> ssorted (sdata s'))
+  /\ out = (Some (List.length keys), None) :: idle (List.length polls)
+  /\ slog s' = remove_call keys.
+Proof. exact remove_text_effect_lemma. Qed.
+Print Assumptions remove_text_effect.
+
+(* exactly once under ANY polling, from ANY storage state (any earlier log, any fault index):
+   whatever is polled after the first poll returns nil and leaves the state of the first poll *)
+Theorem write_text_exactly_once :
+  forall (fo : fops) (re_match : bytes -> bytes -> Value.res bool)
+         (q : string) (p : poll) (polls : list poll) (s : sstate) (out : list pres) (s' : sstate),
+  write_text fo re_match q (p :: polls) s = (TOk out, s') ->
+  exists out1, write_text fo re_match q [p] s = (TOk out1, s') /\ out = (out1 ++ idle (List.length polls))%list.
+Proof. exact write_text_exactly_once_lemma. Qed.
+Print Assumptions write_text_exactly_once.
+
+(* nothing is written if an evaluation fails: data AND call log are untouched, the first poll
+   returns the error *)
+Theorem put_text_all_or_nothing :
+  forall (fo : fops) (re_match : bytes -> bytes -> Value.res bool)
+         (q : string) (p : nat) (prs : list (expr * expr))
+         (poll : poll) (polls : list Write.poll) (s : sstate) (out : list pres) (s' : sstate),
+  parsed_text fo is_write_kind q = TOk (StmtParser.StPut p prs) ->
+  Exists (pair_fails (ev_expr fo re_match)) prs ->
+  write_text fo re_match q (poll :: polls) s = (TOk out, s') ->
+  s' = s /\ exists e, out = (Some 0, Some e) :: idle (List.length polls).
+Proof. exact put_text_all_or_nothing_lemma. Qed.
+Print Assumptions put_text_all_or_nothing.
+
+Theorem remove_text_all_or_nothing :
+  forall (fo : fops) (re_match : bytes -> bytes -> Value.res bool)
+         (q : string) (p : nat) (ks : list expr)
+         (poll : poll) (polls : list Write.poll) (s : sstate) (out : list pres) (s' : sstate),
+  parsed_text fo is_write_kind q = TOk (StmtParser.StRemove p ks) ->
+  Exists (key_fails (ev_expr fo re_match)) ks ->
+  write_text fo re_match q (poll :: polls) s = (TOk out, s') ->
+  s' = s /\ exists e, out = (Some 0, Some e) :: idle (List.length polls).
+Proof. exact remove_text_all_or_nothing_lemma. Qed.
+Print Assumptions remove_text_all_or_nothing.
+
+(* nothing is touched if the statement is not accepted (rejected with a position, or outside the
+   model), nor by a plan that is never polled *)
+Theorem write_text_not_accepted_untouched :
+  forall (fo : fops) (re_match : bytes -> bytes -> Value.res bool)
+         (q : string) (polls : list poll) (s : sstate) (r : tres (list pres)) (s' : sstate),
+  write_text fo re_match q polls s = (r, s') -> (forall out, r <> TOk out) -> s' = s.
+Proof. exact write_text_not_accepted_untouched_lemma. Qed.
+Print Assumptions write_text_not_accepted_untouched.
+
+Theorem write_text_unpolled :
+  forall (fo : fops) (re_match : bytes -> bytes -> Value.res bool)
+         (q : string) (s : sstate) (r : tres (list pres)) (s' : sstate),
+  write_text fo re_match q [] s = (r, s') -> s' = s.
+Proof. exact write_text_unpolled_lemma. Qed.
+Print Assumptions write_text_unpolled.
+
+(* the case split of the theorems above is exhaustive: an accepted text is a PUT or a REMOVE of the
+   parser twin (and its pairs / keys evaluate or fail: put_evaluates_or_fails) *)
+Theorem write_text_accepted_is_write :
+  forall (fo : fops) (re_match : bytes -> bytes -> Value.res bool)
+         (q : string) (polls : list poll) (s : sstate) (out : list pres) (s' : sstate),
+  write_text fo re_match q polls s = (TOk out, s') ->
+  (exists p prs, parsed_text fo is_write_kind q = TOk (StmtParser.StPut p prs)) \/
+  (exists p ks, parsed_text fo is_write_kind q = TOk (StmtParser.StRemove p ks)).
+Proof. exact write_text_accepted_is_write_lemma. Qed.
+Print Assumptions write_text_accepted_is_write.
+
+(* ------------------------------------------------------------------ non-vacuity (float-free,
+   for every float structure) *)
+
+(* a PUT text with a duplicate key, `key` inside a value and a constant sub-expression that is NOT
+   folded: the premises hold, the text is accepted, and the run is the one BatchPut *)
+Definition ex_put_text : string := "put ('b', '1'), ('a', key + '!'), (1 + 1, upper(key)), ('b', key)".
+Definition ex_put_pairs : list (expr * expr) :=
+  [(EStr 5 "b", EStr 10 "1");
+   (EStr 17 "a", EBin 26 OAdd (EField 22 KeyKW) (EStr 28 "!"));
+   (EBin 37 OAdd (ENum 35 "1") (ENum 39 "1"), ECall 42 (EName 42 "upper") [EField 48 KeyKW]);
+   (EStr 56 "b", EField 61 KeyKW)].
+
+Example put_text_effect_nonvacuous :
+  forall (fo : fops) (re_match : bytes -> bytes -> Value.res bool),
+    parsed_text fo is_write_kind ex_put_text = TOk (StmtParser.StPut 0 ex_put_pairs) /\
+    pairs_eval (ev_expr fo re_match) ex_put_pairs [("b", "1"); ("a", "a!"); ("2", "2"); ("b", "b")] /\
+    write_text fo re_match ex_put_text [PBatch; PNext; PNext] (sinit [("b", "old"); ("c", "x")] None)
+    = (TOk [(Some 4, None); (None, None); (None, None)],
+       SState [("2", "2"); ("a", "a!"); ("b", "b"); ("c", "x")]
+              [CBatchPut [("b", "1"); ("a", "a!"); ("2", "2"); ("b", "b")]] None).
+Proof.
+  intros fo re_match.
+  split; [vm_compute; reflexivity|].
+  split; [repeat constructor|].
+  vm_compute; reflexivity.
+Qed.
+
+(* a REMOVE text: keyword case, a number literal in non-canonical spelling (the removed key is the
+   EVALUATED key "7"), a duplicate, trailing semicolons *)
+Example remove_text_effect_nonvacuous :
+  forall (fo : fops) (re_match : bytes -> bytes -> Value.res bool),
+    parsed_text fo is_write_kind "REMOVE 'a', 007, 'a';;" = TOk (StmtParser.StRemove 0 [EStr 7 "a"; ENum 12 "007"; EStr 17 "a"]) /\
+    keys_eval (ev_expr fo re_match) [EStr 7 "a"; ENum 12 "007"; EStr 17 "a"] ["a"; "7"; "a"] /\
+    write_text fo re_match "REMOVE 'a', 007, 'a';;" [PNext; PBatch] (sinit [("007", "x"); ("7", "y"); ("a", "z")] None)
+    = (TOk [(Some 3, None); (None, None)], SState [("007", "x")] [CBatchDelete ["a"; "7"; "a"]] None).
+Proof.
+  intros fo re_match.
+  split; [vm_compute; reflexivity|].
+  split; [repeat constructor|].
+  vm_compute; reflexivity.
+Qed.
+
+(* all or nothing from the text: the second pair's value divides by strlen(key) - 1 = 0 *)
+Example put_text_all_or_nothing_nonvacuous :
+  forall (fo : fops) (re_match : bytes -> bytes -> Value.res bool),
+    (exists p prs, parsed_text fo is_write_kind "put ('a', '1'), ('b', str(1 / (strlen(key) - 1)))" = TOk (StmtParser.StPut p prs)
+                   /\ Exists (pair_fails (ev_expr fo re_match)) prs) /\
+    write_text fo re_match "put ('a', '1'), ('b', str(1 / (strlen(key) - 1)))" [PNext; PBatch] (sinit [("a", "old")] None)
+    = (TOk [(Some 0, Some Storage.EExec); (None, None)], sinit [("a", "old")] None).
+Proof.
+  intros fo re_match. split; [|vm_compute; reflexivity].
+  eexists _, _. split; [vm_compute; reflexivity|].
+  apply Exists_cons_tl, Exists_cons_hd. right. exists "b", Storage.EExec. split; vm_compute; reflexivity.
+Qed.
+
+(* texts the front end rejects, with the position of the SyntaxError: `value` in a PUT, `key` in a
+   REMOVE, a Boolean key, a function called with the wrong number of arguments (found by
+   checkStatementFunctionCalls after Parse), a pair that ends too early (-1: end of input) *)
+Example write_text_rejects_example :
+  forall (fo : fops) (re_match : bytes -> bytes -> Value.res bool) (s : sstate),
+    write_text fo re_match "put ('a', value)" [PNext] s = (TReject 10%Z, s) /\
+    write_text fo re_match "remove 'a', key" [PNext] s = (TReject 12%Z, s) /\
+    write_text fo re_match "put (1 = 1, 'v')" [PNext] s = (TReject 7%Z, s) /\
+    write_text fo re_match "put ('a', upper(key, key))" [PNext] s = (TReject 10%Z, s) /\
+    write_text fo re_match "put ('a', 'b'" [PNext] s = (TReject (-1)%Z, s).
+Proof. intros. repeat split; vm_compute; reflexivity. Qed.
